@@ -14,6 +14,7 @@ pub enum Effect {
     Shutdown,                                // transport writer shutdown attempted
     Drew { pkt: u32, sizes: Seq<i32> },      // padding sizes drawn for session packet `pkt`
     HeartbeatSeen,                           // last_received refreshed
+    DefaultSet { raw: Seq<u8> },              // PaddingFactory::update_default(raw) succeeded: raw is the process-wide default from now on
     Submit { frame: FrameS },                // ghost bookkeeping: a frame accepted by write_frame (its wire effect is write_frame's own postcondition)
 }
 
@@ -213,10 +214,16 @@ impl PaddingFactory {
     pub fn md5(&self) -> (r: &str) ensures r@ == self.md5_spec() { unimplemented!() }
     #[verifier::external_body]
     pub fn raw_scheme(&self) -> (r: &[u8]) ensures r@ == self.raw_spec() { unimplemented!() }
+    // contract of unit `factory` (update_default / default) as the session sees it, over the effect log
     #[verifier::external_body]
-    pub fn update_default(raw: &[u8]) -> (r: std::result::Result<(), String>) { unimplemented!() }
+    pub fn update_default(raw: &[u8], fx: &mut Ghost<Seq<Effect>>) -> (r: std::result::Result<(), String>)
+        ensures Self::parseable(raw@) ==> r is Ok && final(fx)@ == old(fx)@.push(Effect::DefaultSet { raw: raw@ }),
+                !Self::parseable(raw@) ==> r is Err && final(fx)@ == old(fx)@
+    { unimplemented!() }
     #[verifier::external_body]
-    pub fn default() -> (r: Arc<PaddingFactory>) { unimplemented!() }
+    pub fn default(fx: &mut Ghost<Seq<Effect>>) -> (r: Arc<PaddingFactory>)
+        ensures final(fx)@ == old(fx)@, current_default(old(fx)@) is Some ==> r.raw_spec() == current_default(old(fx)@)->Some_0
+    { unimplemented!() }
 }
 pub use std::sync::Arc;
 pub mod md5 { pub struct Digest; #[verifier::external_body] pub fn compute(b: &[u8]) -> Digest { Digest } }
@@ -315,12 +322,18 @@ pub broadcast proof fn lemma_deliveries_push(fx: Seq<Effect>, e: Effect)
     ensures #[trigger] deliveries(fx.push(e)) == (match e { Effect::Send { .. } => deliveries(fx).push(e), Effect::NewStream { .. } => deliveries(fx).push(e), Effect::NotifySynack { .. } => deliveries(fx).push(e), Effect::CloseWithError { .. } => deliveries(fx).push(e), _ => deliveries(fx) })
 { assert(fx.push(e).drop_last() =~= fx); assert(fx.push(e).last() == e); }
 // the frames handed to write_frame, in order
+// the raw scheme of the process-wide default, as far as this log knows it
+pub open spec fn current_default(fx: Seq<Effect>) -> Option<Seq<u8>> decreases fx.len()
+{ if fx.len() == 0 { None } else { match fx.last() { Effect::DefaultSet { raw } => Some(raw), _ => current_default(fx.drop_last()) } } }
+pub broadcast proof fn lemma_current_default_push(fx: Seq<Effect>, e: Effect)
+    ensures #[trigger] current_default(fx.push(e)) == (match e { Effect::DefaultSet { raw } => Some(raw), _ => current_default(fx) })
+{ assert(fx.push(e).drop_last() =~= fx); assert(fx.push(e).last() == e); }
 pub open spec fn submitted(fx: Seq<Effect>) -> Seq<FrameS> decreases fx.len()
 { if fx.len() == 0 { Seq::empty() } else { let r = submitted(fx.drop_last()); match fx.last() { Effect::Submit { frame } => r.push(frame), _ => r } } }
 pub broadcast proof fn lemma_submitted_push(fx: Seq<Effect>, e: Effect)
     ensures #[trigger] submitted(fx.push(e)) == (match e { Effect::Submit { frame } => submitted(fx).push(frame), _ => submitted(fx) })
 { assert(fx.push(e).drop_last() =~= fx); assert(fx.push(e).last() == e); }
-pub broadcast group group_proj { lemma_closed_push, lemma_failed_push, lemma_waiters_push, lemma_shutdown_push, lemma_deliveries_push, lemma_submitted_push }
+pub broadcast group group_proj { lemma_closed_push, lemma_failed_push, lemma_waiters_push, lemma_shutdown_push, lemma_deliveries_push, lemma_submitted_push, lemma_current_default_push }
 // module paths as written in the source
 pub mod tokio { pub mod sync { pub use super::super::oneshot; pub use super::super::mpsc; pub use super::super::tsync::Mutex; } pub mod time { pub use super::super::time::*; pub use super::super::Duration; pub use super::super::Instant; } }
 
